@@ -16,6 +16,7 @@ RULE = ('one run = 3-8 phases over 1-4 driver lives; a phase = optional edits (a
         'destructed, loaded again, described (functions, variables, inherit list, checksum of the disassembly and line table) and run. '
         'The file layer log tells for every load whether the source or the saved binary was used. non-trivial = at least one program '
         'was loaded from a saved binary and at least one edit happened; distinct = distinct (history shape, outcome per load).')
+RULE += (' Later additions: disk faults while binaries are written (one failing call, or the disk stopping for the rest of a life that ends in a restart), the failing write torn at one of eight shares; the next loads find what the save left behind.')
 COMPONENTS = {'real': ['lib/lpc/program/binaries.c (save_binary, load_binary, check_times, locate_in/out, patch_in/out)', 'lib/lpc/compiler.c', 'lib/lpc/lex.c include list',
                        'src/simulate.c load_object', 'lib/efuns dump_prog/functions/variables/inherit_list', 'src/backend.c + comm.c'],
               'stub': ['kernel sockets/clock/timer (simulated)', 'file layer: pass-through with simulated modification times that survive restarts'],
